@@ -29,7 +29,7 @@ REQUIRED_MONITORS = ["Polygon.area", "Polygon.signed_area", "Polygon.perimeter",
                      "Polygon.planar_moments_inertia(xy,+z)", "Polygon.polar_moment_inertia", "Polygon.inertia_tensor",
                      "lattice-exact"]
 REQUIRED_CLASSES = ["orient:cw", "orient:ccw", "plane:tilted", "plane:xy", "kind:comb", "kind:star", "kind:lattice",
-                    "kind:convex", "kind:spiral", "history:aged-object", "history:sibling-aged", "polygon:far-from-origin"]
+                    "kind:convex", "kind:spiral", "history:aged-object", "history:sibling-aged", "polygon:far-from-origin", "polygon:extreme-units"]
 
 
 def ncases(tier):
@@ -165,11 +165,13 @@ MEMBERS = ["area", "signed_area", "perimeter", "centroid", "center", "planar_mom
 
 def run_case(i, rng, rec, tier, state):
     cs = state["cs"]
-    c = gen.polygon_case(rng, far_frac=0.05)
+    c = gen.polygon_case(rng, far_frac=0.05, unit_frac=0.08)
     if c.get("straight_corner") is not None:
         rec.cls("polygon:straight-corner" + (":first-three-collinear" if c["straight_corner"] == 1 else ""))
     if c["far"]:
         rec.cls("polygon:far-from-origin")
+    if c["unit"] != 1.0:
+        rec.cls("polygon:extreme-units")
     V = c["V"]
     use_convex = c["convex"] and rng.random() < 0.4
     cls = cs.ConvexPolygon if use_convex else cs.Polygon
